@@ -154,6 +154,7 @@ def signature(recipe: dict, plan: dict | None, rec: dict, viol: dict) -> dict:
             kinds[e["name"]] = src["kind"]
         damaged = viol.get("raw_damaged", [])
         via_tofile = cfg.get("backend", "fd") == "fd" and damaged and all(kinds.get(n) in ("np", "lazy", "packed") for n in damaged)
+        # (torch / proto / bytesonly / ext tensors reach the file through Python-level write(): never silent)
         sig["writer"] = "numpy.tofile" if via_tofile else "python.write"
         sig["damage"] = "final-partial-stdio-block" if viol.get("raw_confined") and damaged else "other"
     return sig
@@ -411,6 +412,7 @@ def check(tier_name: str, seed: int, max_cases: int | None = None) -> int:
     _quiet_logging()
     # import once in the parent so forked workers share the loaded modules
     import onnx_ir  # noqa: F401
+    import torch  # noqa: F401  (TorchTensor-backed initializers; imported once, workers are forked)
     import tqdm  # noqa: F401
     from onnxscript._framework_apis import torch_2_5  # noqa: F401
 
